@@ -40,6 +40,19 @@ def _is_mutable_value(v):
     return False
 
 
+IMMUTABLE_CTORS = {"TypeVar", "ParamSpec", "Path", "PurePath", "Fraction", "Decimal", "NamedTuple", "Enum", "Final", "Literal",
+                   "Optional", "Union", "Callable", "Pattern", "ZoneInfo"}
+
+
+def _is_instance_value(v):
+    """`Name(...)` / `mod.Name(...)` with a capitalised callee: an instance of a class (constructors of immutable values excepted)"""
+    if not isinstance(v, ast.Call):
+        return False
+    f = v.func
+    name = f.id if isinstance(f, ast.Name) else (f.attr if isinstance(f, ast.Attribute) else "")
+    return bool(name) and name[0].isupper() and not name.isupper() and name not in IMMUTABLE_CTORS
+
+
 class _Scan(ast.NodeVisitor):
     """one module: collect class-level / module-level state and every place that rebinds or mutates it"""
 
@@ -201,6 +214,10 @@ class _Scan(ast.NodeVisitor):
                             self._add(f"{self.rel}:{t.id}", "import-const")
                         elif _is_mutable_value(val):
                             self._add(f"{self.rel}:{t.id}", "constant-table")
+                        elif _is_instance_value(val):
+                            # an object built once at import time and shared by every later call (a parser, a processor, a
+                            # registry): whatever it remembers outlives the run that taught it
+                            self._add(f"{self.rel}:{t.id}", "module-instance")
         self.visit(tree)
         # class-level containers
         for c, attrs in self.classes.items():
